@@ -380,7 +380,7 @@ def _emit_extracted(u, target, args, block, subst, emit):
             fired.add('subst[' + a_ + ' => ' + b_ + ']')
     # `subst_ws=`: like subst, but the text to replace is matched up to whitespace (multi-line expressions whose indentation differs between occurrences); every
     # occurrence is replaced; none found = lost anchor
-    for pair in [x for x in args.get('subst_ws', '').split('|') if '=>' in x]:
+    for pair in [x for x in [args.get('subst_ws', '')] if '=>' in x]:     # ONE pair (the text may contain `|`)
         a_, b_ = pair.split('=>', 1)
         chars = [c for c in a_ if not c.isspace()]
         rx_ = r'\s*'.join(re.escape(c) for c in chars)
@@ -438,7 +438,20 @@ def _emit_extracted(u, target, args, block, subst, emit):
                 pnames.append(mn.group(1))
     def _pos(text):
         return re.sub(r'\$#(\d+)', lambda m_: pnames[int(m_.group(1))] if int(m_.group(1)) < len(pnames) else m_.group(0), text)
+    skip_next = False
     for kind, arg, lines, where in sections:
+        # `//@when "text"` / `//@unless "text"`: the NEXT section applies only if the (rewritten) real body contains / does not contain the text -- lets a proof text state
+        # what it needs of the code's current form (e.g. "the limbs are cleared because the loop ACCUMULATES into them") without demanding it of code that does not need it
+        if kind in ('when', 'unless'):
+            mw = re.match(r'"(.*)"\s*$', arg)
+            if not mw:
+                raise ExtractError(f'{where}: bad @{kind} syntax')
+            present = ''.join(mw.group(1).split()) in ''.join(body.split())
+            skip_next = (not present) if kind == 'when' else present
+            continue
+        if skip_next:
+            skip_next = False
+            continue
         text = _pos(subst('\n'.join(lines)).rstrip())
         if kind == 'spec':
             spec = text
